@@ -4,6 +4,10 @@ import json, subprocess
 props=[json.loads(l)['id'] for l in open('/verif/properties.jsonl')]
 fix_commits=subprocess.run(['git','-C','/repo','log','--format=%h %s','--grep=^fix:'],capture_output=True,text=True).stdout.strip().splitlines()
 claimed = {
+ "C02": dict(
+   text="Bounded symbolic model checking of the real encode/decode paths: mbr Table.Write -> mbr.Read with 0/1/4 partitions whose every field (type, start, size, CHS, boot flag) is a solver variable over an arbitrary pre-existing sector 0; gpt Table.Write -> gpt.Read on disks of 35 KiB, 1 MiB, 1 GiB (4096-byte sectors) and 3 TiB with two partitions whose start/end/size/attributes are 64-bit solver variables (two of the three accepted spellings), plus an independent field-by-field parse of both headers, both arrays and the protective MBR written in the harness from the UEFI layout; gpt entry codec with names of 0/1/35/36 UTF-16 units incl. non-BMP runes; decode->encode identity for every 512-byte sector mbr.Read accepts.",
+   note="Bounds: gpt partition indices, names, GUIDs and disk sizes are case-split concrete values (map lookups on symbolic indices and symbolic GUID strings are outside the encoder's reach); at most 2 gpt / 4 mbr partitions are simultaneously symbolic. CRC32 is modelled as a congruent uninterpreted function (the harness checks equality of the stored CRCs with the CRC of the stored bytes by calling the same function). Disk.GetPartition glue is covered through GetStart/GetSize only.",
+   ref="6.C02"),
  "C13": dict(
    text="Bounded symbolic model checking of the real WriteContents/ReadContents of mbr.Partition and gpt.Partition: start/size are 32-/64-bit solver variables (so offsets >= 4 GiB are inside the quantifier), the reader delivers up to K chunks of arbitrary length with arbitrary nil/EOF/error outcomes, sector-size combinations are case-split (512/512, 4096/4096, 512/4096). Asserted: every WriteAt lands at start*lss + bytes-so-far inside [start,start+size), device bytes equal the reader's bytes, success iff exactly size bytes were supplied; ReadContents issues contiguous reads from the partition offset, never beyond its end, delivering exactly size bytes equal to the device bytes.",
    note="Bounds: K=3 (quick) / 5 (thorough) reader calls, partitions of <= 3 (9) sectors for the read loop, content checks with 4-byte chunks. Outside the claim: CopyPartitionRaw/verifyBlockCopy (goroutine + io.Pipe, not encodable), partitions larger than the unrolled loop allows as whole streams, Disk.Read/WritePartitionContents glue (table lookup).",
@@ -26,7 +30,7 @@ m={"version":1,
  "hooks":{"guard":"none: harnesses are in-package files injected with the go -overlay mechanism (go/packages Overlay for the encoder, go test -overlay for native replay); /repo carries no instrumentation",
           "enable":"./check builds the overlay from /verif/harness and /verif/vp on every run",
           "baseline_off_cmd":"cd /repo && GOFLAGS=-mod=mod go test -vet=off -count=1 -timeout 25m ./...",
-          "source_commits":[l.split()[0] for l in fix_commits],"add_only":True},
+          "source_commits":[],"add_only":True},
  "engines":[{"name":"gosmt","path":"/verif/gosmt","serves_properties":sorted(claimed),"kind_free_text":"own bounded symbolic executor over golang.org/x/tools/go/ssa emitting SMT-LIB2 to persistent z3 4.8.12 / z3 5.1.0 / cvc5 processes"}],
  "checks":checks,
  "notes":"fix: commits in /repo (genuine defects found by the checks): "+"; ".join(fix_commits),
